@@ -55,6 +55,7 @@ from sleap_nn.training.utils import (
     check_memory,
     is_distributed_initialized,
     get_dist_rank,
+    mask_api_key,
 )
 from sleap_nn.inference.utils import get_skeleton_from_config
 
@@ -197,7 +198,10 @@ class ModelTrainer:
         if (
             rank is None or rank == 0
         ):  # save cfg if there are no distributed process or the rank = 0
-            OmegaConf.save(config=self.config, f=f"{self.dir_path}/initial_config.yaml")
+            OmegaConf.save(
+                config=mask_api_key(self.config),
+                f=f"{self.dir_path}/initial_config.yaml",
+            )
 
         # set seed
         torch.manual_seed(self.seed)
@@ -301,7 +305,8 @@ class ModelTrainer:
             rank is None or rank == 0
         ):  # save config if there are no distributed process or the rank = 0
             OmegaConf.save(
-                config=self.config, f=f"{self.dir_path}/training_config.yaml"
+                config=mask_api_key(self.config),
+                f=f"{self.dir_path}/training_config.yaml",
             )
 
         # save config to chunks folder
@@ -317,7 +322,7 @@ class ModelTrainer:
             if (
                 rank is None or rank == 0
             ):  # save config if there are no distributed process or the rank = 0
-                OmegaConf.save(config=self.config, f=save_path.as_posix())
+                OmegaConf.save(config=mask_api_key(self.config), f=save_path.as_posix())
 
     def _create_data_loaders_torch_dataset(self):
         """Create a torch DataLoader for train, validation and test sets using the data_config."""
@@ -817,7 +822,8 @@ class ModelTrainer:
             rank is None or rank == 0
         ):  # save config if there are no distributed process or the rank = 0
             OmegaConf.save(
-                config=self.config, f=f"{self.dir_path}/training_config.yaml"
+                config=mask_api_key(self.config),
+                f=f"{self.dir_path}/training_config.yaml",
             )
 
         if self.data_pipeline_fw == "litdata":
@@ -890,7 +896,8 @@ class ModelTrainer:
 
             # save the config with wandb runid
             OmegaConf.save(
-                config=self.config, f=f"{self.dir_path}/training_config.yaml"
+                config=mask_api_key(self.config),
+                f=f"{self.dir_path}/training_config.yaml",
             )
 
             if (
